@@ -82,7 +82,7 @@ def run(ctx):
                 seen.add(b["check"])
                 ev = json.loads(lines_[b["line"] - 1])
                 ctx.violation(b["check"], {"trace_line": b["line"], "board": ev.get("bb", ev.get("a")), "nth": ev.get("nth")},
-                              {"kind": "trace", "trace": kept, "line": b["line"], "module": "BitSetTrace"})
+                              {"kind": "trace", "record_args": [str(a) for a in h["args"]], "trace": kept, "line": b["line"], "module": "BitSetTrace"})
         ctx.cov["states"] += r["distinct"]
         ctx.cov["transitions"] += r["generated"]
         os.remove(tr)
